@@ -25,7 +25,7 @@ ASSUMPTIONS = [
 ]
 MUST = ["contract_eval_validate_modbus_rtu_response", "contract_eval_validate_modbus_tcp_response",
         "contract_eval_validate_aa55_response", "verdict_true", "verdict_false", "verdict_partial", "verdict_rejected",
-        "transport_level_results", "concurrent_transport_cases", "accepted_rtu_read", "accepted_rtu_write", "accepted_rtu_multi", "accepted_tcp_read",
+        "transport_level_results", "malformed_answer_in_two_pieces", "concurrent_transport_cases", "accepted_rtu_read", "accepted_rtu_write", "accepted_rtu_multi", "accepted_tcp_read",
         "accepted_tcp_write", "accepted_tcp_multi", "accepted_aa55"]
 EXHAUSTIVE = {"quick": False, "thorough": False}
 
@@ -136,6 +136,8 @@ def mutations(base, other, rnd, n_havoc, cmd_desc=None):
         yield "bitflip", bytes(b)
     for t in (b"\x00", b"\xff\xff", base[-2:], base):
         yield "trailing", base + t
+    if cmd_desc is not None and cmd_desc["framing"] in ("rtu", "aa55") and len(base) > 4 and base[-1] != base[-2]:
+        yield "checksum-bytes-swapped", base[:-2] + base[-1:] + base[-2:-1]
     for _ in range(n_havoc):
         b = bytearray(base)
         op = rnd.randrange(5)
@@ -280,7 +282,7 @@ class RawPeer(ScriptedPeer):
             cut = self.sc.get("cuts", {}).get(str(n))
             if cut:
                 self.send(s, fr[:cut], 0, n, 1)
-                self.send(s, fr[cut:], 0.2, n, 2)
+                self.send(s, fr[cut:], 0.2, n, 2)       # (0.2 s apart: two separate datagrams / segments)
             else:
                 self.send(s, fr, 0, n)
 
@@ -312,11 +314,18 @@ def transport_part(spec, part):
         muts = [m for m in mutations(base, other, rnd, 12, d) if m[0] != "valid" and len(m[1]) > 0]
         frames = [rnd.choice(muts)[1] for _ in range(3)]
         cuts = {}
+        hdr = 5 if framing == "rtu" else 9
         if rnd.random() < 0.3:      # the VALID answer, delivered in two pieces (what is delivered must still be the whole frame)
             frames[0] = base
-            hdr = 5 if framing == "rtu" else 9
             if len(base) > hdr + 1:
                 cuts["1"] = rnd.randrange(hdr, len(base))
+        elif rnd.random() < 0.5:
+            # a MALFORMED answer delivered in two pieces (whatever is reassembled must pass the same checks as a frame that came whole)
+            pool = [m[1] for m in muts if m[0] in ("wrong-length-consistent", "foreign", "echo-of-another-write", "bitflip", "havoc") and len(m[1]) > hdr + 1]
+            if pool:
+                frames[0] = rnd.choice(pool)
+                cuts["1"] = rnd.choice((hdr, len(frames[0]) - 1, rnd.randrange(hdr, len(frames[0]))))
+                part.count("malformed_answer_in_two_pieces")
         sc = {"transport": "tcp" if framing == "tcp" else "udp", "framing": framing, "keep_alive": rnd.random() < 0.5,
               "T": 1, "R": 2, "frames": [f.hex() for f in frames], "cuts": cuts, "tasks": [{"start": 0.0, "steps": [step]}]}
         run = engine.run_scenario(sc, peer_factory=RawPeer, quiesce=False)
